@@ -59,6 +59,12 @@ where
             return Err(InvalidView);
         }
 
+        // The buffer must be able to hold the root of the archive, otherwise
+        // `archived_root` would look for it before the start of the buffer.
+        if data_bytes.len() < mem::size_of::<T::Archived>() {
+            return Err(InvalidView);
+        }
+
         let view = unsafe { rkyv::archived_root::<T>(data_bytes) };
 
         Ok(Self { data, view })
